@@ -35,6 +35,7 @@ CHECK = {
                             "init_offsets": 7, "engine_canonical_W": 520, "engine_canonical_L": 7}},
     "parts": [
         {"name": "rng", "harness": "c13_rng", "flavour": "rel", "cflags": ["-fno-access-control"],
+         "depth": {"quick": "thorough"},   # thorough bounds cost < 40 s
          "shards": {"quick": 16, "thorough": 16}, "deadline": {"quick": 120, "thorough": 900}},
     ],
 }
